@@ -150,6 +150,18 @@ func Solve(workDir, name, script string, timeoutS int, seed int, allSolvers bool
 		}
 	}
 	res.Seconds = time.Since(start).Seconds()
+	if len(definitive) == 0 && allSolvers {
+		// no solver decided it with the given seed: the query is one of the seed-sensitive ones. What counts is whether
+		// it can be decided at all, so the race of the quick tier (further seeds) gets a turn before the verdict "undecided"
+		r2 := Solve(workDir, name+".reseed", script, timeoutS, seed+1, false)
+		r2.Seconds += res.Seconds
+		for k, v := range res.Answers {
+			if _, have := r2.Answers[k]; !have {
+				r2.Answers[k] = v
+			}
+		}
+		return r2
+	}
 	if len(definitive) == 0 {
 		res.Status = "unknown"
 		allErr := len(res.Answers) > 0
